@@ -415,6 +415,89 @@ def k14(ctx, rid):
     c12.s2(ctx, rid)
 
 
+def _eval_bool_from(f, start, env=None, limit=40):
+    """follow the straight-line code from block `start` and return the bool assigned to _0 (None if a branch is met)"""
+    env = dict(env or {})
+    b = start
+    while limit > 0:
+        limit -= 1
+        blk = f.blocks[b]
+        for st in blk['s']:
+            if st['k'] != 'a' or st['d'][1]:
+                continue
+            r = st['r']
+            val = None
+            if r['k'] == 'use':
+                k = core.op_const(r['o'])
+                if k is not None and 'int' in k:
+                    val = bool(k['int'])
+                elif op_local(r['o']) in env:
+                    val = env[op_local(r['o'])]
+            elif r['k'] == 'un' and r.get('op') == 'Not' and op_local(r['o']) in env:
+                val = not env[op_local(r['o'])]
+            if val is not None:
+                env[st['d'][0]] = val
+        t = blk['t']
+        if t['k'] == 'goto':
+            b = t['t']
+        elif t['k'] == 'return':
+            return env.get(0)
+        elif t['k'] == 'drop':
+            b = t['t']
+        else:
+            return None
+    return None
+
+
+def k15(ctx, rid):
+    """every validation error the blob scan can raise is classified as corruption: for each ValidationErrorKind variant that the
+    scan / header / record validation code constructs, should_save_corrupted_blob answers true (a class that is left out makes
+    Storage::init fail on a damaged blob instead of quarantining it)"""
+    prog = ctx.prog
+    f = prog.fns.get('storage::core::Storage::<K>::should_save_corrupted_blob')
+    adt = prog.adts.get('error::ValidationErrorKind')
+    if f is None or adt is None:
+        raise core.AnchorLost('should_save_corrupted_blob / ValidationErrorKind')
+    names = [v['name'] for v in adt['variants']]
+    verdict = {}
+    found = False
+    for i in f.reachable():
+        t = f.blocks[i]['t']
+        if t['k'] != 'switch':
+            continue
+        for (bb, si, kind, r) in f.defs().get(op_local(t['o']), []):
+            if kind == 'assign' and r['k'] == 'discr' and 'ValidationErrorKind' in (core.place_type_str(f, r['p']) or ''):
+                found = True
+                vals = dict((v, tg) for v, tg in t['vals'])
+                for vi, nm in enumerate(names):
+                    verdict[nm] = _eval_bool_from(f, vals.get(vi, t['otherwise']))
+    if not found:
+        # no per-kind distinction: every Validation error is treated alike (fine when the Validation arm answers true)
+        for nm in names:
+            verdict[nm] = None
+    raised = {}
+    for g in prog.fns.values():
+        if g.file not in SCAN_FILES and g.file != 'src/record/record.rs':
+            continue
+        for c in g.calls:
+            if c.name == 'validation' and 'error::Error' in c.full and c.args and c.bb in g.reachable():
+                for o in core.origins(g, c.args[0]):
+                    if o.kind == 'agg' and o.data.get('adt') == 'error::ValidationErrorKind':
+                        raised.setdefault(o.data['variant'], c)
+    n = 0
+    for nm, c in sorted(raised.items()):
+        if nm == 'BlobVersion':
+            continue    # deliberately not quarantined: an unknown blob version must never be moved aside
+        n += 1
+        key = 'scan-error-is-quarantine-class|%s' % nm
+        if verdict.get(nm) is False:
+            ctx.bad(rid, key, c.where(), 'the scan raises ValidationErrorKind::%s here, but should_save_corrupted_blob answers false for it: a blob damaged this way makes Storage::init fail on every restart instead of being quarantined' % nm)
+        else:
+            ctx.ok(rid, key, c.where(), 'classified as corruption (%s)' % ('true' if verdict.get(nm) else 'not distinguished'), nontrivial=False)
+    if n < 4:
+        raise core.AnchorLost('validation error kinds raised by the scan: %d' % n)
+
+
 RULES = [
     Rule('C06.K1', 'every blob-file read / decode in the open path is converted to a quarantine-class error before `?`', k1, 6),
     Rule('C06.K2', 'the sequential scan accepts a header only after comparing the end of its extent with the file size and stops only at the exact end of file', k2, 2),
@@ -427,6 +510,7 @@ RULES = [
     Rule('C06.K12', 'a short (empty / cut) index file left by an interrupted dump is regenerated at the next start (C03.I10 instance)', k12, 1),
     Rule('C06.K13', 'the data-validation flag handed to the recovery scan is the configured flag and nothing else (C05.V8 instances)', k13, 2),
     Rule('C06.K14', 'every index dump is preceded by an ok sync of the blob file (C12.S2 instances)', k14, 3),
+    Rule('C06.K15', 'every validation error kind the scan can raise is classified as corruption by should_save_corrupted_blob', k15, 4),
     Rule('C06.K8', 'the id of every blob that failed to open (ignored or quarantined) is never reused (C07.H6/H6d instances)', k8, 4),
     Rule('C06.K7', 'a torn or stale index file is never trusted: gate tests every header fact (blob size by equality), the file extent, and the written flag is set in a second phase (C03.I2/I5/I8 instances)', k7, 8),
 ]
